@@ -964,3 +964,17 @@ Qed.
 Lemma api_done_terminal l w :
   Forall (fun qo => api_req (fst qo)) l -> J w -> w_st w = sDONE -> run_seq l w = (w, []).
 Proof. intros Hl HJ Hd. apply run_seq_unlisted; [exact Hl|]. apply HJ, Hd. Qed.
+
+Lemma api_all_ok l : Forall (fun qo : req * oracle => api_req (fst qo)) l -> Forall (fun qo => req_ok (fst qo)) l.
+Proof. intro H. eapply Forall_impl; [|exact H]. intros a Ha. apply api_req_ok. exact Ha. Qed.
+
+(* every state change of every sequential history of API requests is an edge of the documented graph *)
+Lemma api_seq_graph l w :
+  Forall (fun qo => api_req (fst qo)) l -> J w ->
+  edges_ok (trace_edges (w_st w) (snd (run_seq l w))) = true /\
+  trace_final (w_st w) (snd (run_seq l w)) = w_st (fst (run_seq l w)) /\
+  J (fst (run_seq l w)).
+Proof. intros Hl HJ. apply run_seq_graph; [apply api_all_ok; exact Hl|exact HJ|apply api_seq_safe; exact Hl]. Qed.
+
+Lemma J_listed st : J (mkWorld st true) -> st <> sDONE.
+Proof. intros H E. specialize (H E). discriminate. Qed.
